@@ -1,5 +1,6 @@
 import Dmn.Model.Sexp
 import Dmn.Model.BifEval
+import Dmn.Model.MergeSort
 import Dmn.Driver.Codec
 
 /-! Driver handler for C08.
@@ -20,6 +21,10 @@ def showOutcome (o : Option (Outcome Value)) : String :=
   | some (.ok v) => toString (Sexp.list [.atom "ok", sexpOfValue v])
   | some (.panic site) => toString (Sexp.list [.atom "panic", Sexp.ofStr site])
   | some .diverge => "(diverge)"
+
+def isT : Value → Bool
+  | .bool true => true
+  | _ => false
 
 def modeOf : Sexp → Option IntMode
   | .atom "checked" => some .checked
@@ -48,6 +53,20 @@ def handle (args : List Sexp) : String :=
       match Spec.apply name vs with
       | some v => toString (Sexp.list [.atom "spec", sexpOfValue v])
       | none => "(nospec)"
+    | _, _ => "(error bad-request)"
+  -- `sort(list, function(x, y) <x op y>)`: the merge sort of `core::sort` on the named relation
+  | [.atom "sort", .atom rel, l] =>
+    let p? : Option (Value → Value → Bool) := match rel with
+      | "lt" => some (fun x y => isT (Value.ltV x y))
+      | "gt" => some (fun x y => isT (Value.gtV x y))
+      | "le" => some (fun x y => isT (Value.leV x y))
+      | "ne" => some (fun x y => isT (Value.nqV x y))
+      | "eq" => some (fun x y => isT (Value.eqV x y))
+      | "true" => some (fun _ _ => true)
+      | "false" => some (fun _ _ => false)
+      | _ => none
+    match p?, valueOfSexp l with
+    | some p, some (.list xs) => toString (Sexp.list [.atom "ok", sexpOfValue (.list (mergeSort p xs))])
     | _, _ => "(error bad-request)"
   | [.atom "offending"] =>
     toString (Sexp.list (.atom "offending" :: offending.map (fun (n, ps) => Sexp.list (Sexp.ofStr n :: ps.map Sexp.ofStr))))
